@@ -14,14 +14,19 @@ from vectorizers.transformers import (InformationWeightTransformer, RowDenoising
 import vectorizers.linear_optimal_transport as lot
 
 CALLS = []
+LAST = {}
+ORIG = {}
 
 
 def _wrap(name, sizefn):
-    """record the number of rows handed to each call of a per-block / per-chunk kernel"""
+    """record the number of rows handed to each call of a per-block / per-chunk kernel (and the arguments of the
+    last call, for the chunk-loop probe)"""
     orig = getattr(lot, name)
+    ORIG[name] = orig
 
     def w(*a, **k):
         CALLS.append(int(sizefn(a)))
+        LAST["call"] = (name, a, k)
         return orig(*a, **k)
     setattr(lot, name, w)
 
@@ -60,6 +65,9 @@ class Runner:
         elif E == "Skipgram":
             self.m = V.SkipgramVectorizer(**p)
         elif E == "LZ":
+            self.base_items = []
+            if c.get("base"):
+                p["base_dictionary"] = self.lz_base(c["base"], p)
             self.m = V.LZCompressionVectorizer(**p)
         elif E == "BPE":
             self.m = V.BytePairEncodingVectorizer(**p)
@@ -86,11 +94,31 @@ class Runner:
         elif E == "SlidingWindow":
             if isinstance(p.get("window_sample"), list):
                 p["window_sample"] = np.asarray(p["window_sample"], dtype=np.int64)
+            elif isinstance(p.get("window_sample"), dict):
+                p["window_sample"] = tuple(int(x) for x in p["window_sample"]["pair"])
+            if p.get("kernels"):
+                p["kernels"] = [tuple(k) if isinstance(k, list) else k for k in p["kernels"]]
             self.m = SlidingWindowTransformer(**p)
         else:
             raise ValueError(E)
         self.kind = k
         self.vectors = None
+
+    def lz_base(self, base, p):
+        """base_dictionary of the case (phrase -> count) in the key space of the estimator: the phrases themselves, or
+        (max_columns set) their hashes under the hash function the estimator will build in fit: make_hash(max_columns,
+        check_random_state(random_state).randint(MAX_INT32)), i.e. murmurhash(code points, seed) % max_columns"""
+        if p.get("max_columns") is None:
+            d = {k: int(v) for k, v in base}
+        else:
+            from sklearn.utils import check_random_state
+            from vectorizers.mixed_gram_vectorizer import murmurhash, unicode_string_to_int_array, MAX_INT32
+            seed = int(check_random_state(p.get("random_state")).randint(MAX_INT32))
+            d = {}
+            for k, v in base:
+                d[int(murmurhash(unicode_string_to_int_array(k), seed) % p["max_columns"])] = int(v)
+        self.base_items = list(d.items())
+        return d
 
     def conv(self, data):
         k = self.kind
@@ -123,6 +151,8 @@ class Runner:
                 m.generator_n_distributions = len(X)
                 m.fit((d for d in X), vectors=(v for v in vs),
                       reference_vectors=np.asarray(c["reference_vectors"], dtype=np.float64))
+        elif c.get("y") is not None:
+            m.fit(X, np.asarray(c["y"]))
         else:
             m.fit(X)
         self.items = self.conv(c["items"])
@@ -169,22 +199,43 @@ def run(c):
     r.fit()
     t_fit = time.time() - t0
     outs = []
-    for op in c["ops"]:
+    extra = {}
+    for n_op, op in enumerate(c["ops"]):
         try:
             del CALLS[:]
+            LAST.clear()
             o = norm_out(r.transform(op["idx"], op.get("block"), op.get("chunk")))
             if r.lot_dim is not None:
                 o["calls"] = list(CALLS)
                 o["b"] = max(1, lot.str_to_bytes(r.m.memory_size) // (r.lot_dim * 8))
                 o["c"] = int(getattr(r.m, "chunk_size", getattr(r.m, "sinkhorn_chunk_size", 0)))
             outs.append(o)
+            if n_op == 0 and c.get("probe_chunks") and len(CALLS) == 1 and CALLS[0] == len(op["idx"]):
+                # the whole batch went to the kernel in one call: re-run the raw kernel on the same arguments with
+                # other chunk sizes; a row counts as written when it equals the row of the one-chunk run
+                name, a, k = LAST["call"]
+                n = CALLS[0]
+                ref = ORIG[name](*a, **dict(k, chunk_size=n + 1))
+                extra["kernel_written"] = []
+                for cs in c["probe_chunks"]:
+                    got = ORIG[name](*a, **dict(k, chunk_size=int(cs)))
+                    extra["kernel_written"].append([int(cs), n, [i for i in range(n) if np.array_equal(got[i], ref[i])]])
         except Exception as e:
             outs.append({"err": type(e).__name__, "msg": str(e)[:300], "tb": traceback.format_exc()[-600:]})
-    extra = {}
     if r.est == "LZ":
-        extra = {"hashed": r.m.max_columns is not None,
-                 "coldict": [[[ord(ch) for ch in k], int(v)] for k, v in r.m.column_label_dictionary_.items()]
-                 if r.m.max_columns is None else []}
+        hashed = r.m.max_columns is not None
+        extra = {"hashed": hashed,
+                 "coldict": [[int(k) if hashed else [ord(ch) for ch in k], int(v)]
+                             for k, v in r.m.column_label_dictionary_.items()],
+                 "base": [[int(k) if hashed else [ord(ch) for ch in k], int(v)] for k, v in r.base_items]}
+        if hashed:
+            subs = {""}
+            for s in c["items"]:
+                for i in range(len(s)):
+                    for j in range(i + 1, len(s) + 1):
+                        subs.add(s[i:j])
+            extra["hashes"] = ([[[ord(ch) for ch in s], int(r.m.hash_function_(s))] for s in sorted(subs)]
+                               if len(subs) <= 300 else None)
     if r.est == "BPE":
         extra = {"code_list": [[int(a), int(b)] for a, b in r.m.code_list_], "mcc": int(r.m.max_char_code_)}
     return {"ok": outs, "extra": extra, "t": [round(t_fit, 2), round(time.time() - t0, 2)]}
